@@ -156,6 +156,14 @@ def full_grad(task, i, t):
     return g
 
 
+def _row_padded(t):
+    """the same values in row-padded storage (the layout `strided_local` gives the local shards)"""
+    big = torch.zeros(tuple(t.shape[:-1]) + (2 * t.shape[-1] + 1,), dtype=t.dtype)
+    view = big[..., :t.shape[-1]]
+    view.copy_(t)
+    return view
+
+
 def serial_on_pieces(task, k, comm="fp32", comm_params=False):
     """The oracle of C07/C08: the single-process optimizer on the sub-tensors the spec says shard rank k holds, taken as
     independent parameters (one group, same order), communicated quantity rounded through `comm`."""
@@ -165,7 +173,10 @@ def serial_on_pieces(task, k, comm="fp32", comm_params=False):
     params, owner = [], []
     for i, ps in enumerate(pieces):
         for p in ps:
-            params.append(torch.nn.Parameter(fulls[i].reshape(-1)[p["off"]:p["off"] + p["len"]].view(tuple(p["shp"])).clone()))
+            val = fulls[i].reshape(-1)[p["off"]:p["off"] + p["len"]].view(tuple(p["shp"])).clone()
+            if task.get("strided_local") and val.dim() >= 2:
+                val = _row_padded(val)          # same memory layout as the rank's local shard: the comparison is bitwise
+            params.append(torch.nn.Parameter(val))
             owner.append((i, p))
     if not params:
         return None
@@ -185,7 +196,10 @@ def serial_on_pieces(task, k, comm="fp32", comm_params=False):
     out = []
     for t, m in enumerate(task["masks"], start=1):
         for prm, (i, p) in zip(params, owner):
-            prm.grad = full_grad(task, i, t).reshape(-1)[p["off"]:p["off"] + p["len"]].view(tuple(p["shp"])).clone() if m[i] else None
+            gv = full_grad(task, i, t).reshape(-1)[p["off"]:p["off"] + p["len"]].view(tuple(p["shp"])).clone() if m[i] else None
+            if gv is not None and task.get("strided_local") and gv.dim() >= 2:
+                gv = _row_padded(gv)
+            prm.grad = gv
         opt.step()
         # per original parameter: the shard's content = concatenation of its pieces
         per_param = []
@@ -309,10 +323,7 @@ def dtensor_rank_fn(task, hybrid=False):
                 loc = full.reshape(-1)[pcs[0]["off"]:pcs[0]["off"] + pcs[0]["len"]].view(tuple(pcs[0]["shp"])).clone()
                 if task.get("strided_local") and loc.dim() >= 2:
                     # the local shard sits in row-padded storage (stride of the last-but-one dimension larger than the row length)
-                    big = torch.zeros(tuple(loc.shape[:-1]) + (2 * loc.shape[-1] + 1,), dtype=loc.dtype)
-                    view = big[..., :loc.shape[-1]]
-                    view.copy_(loc)
-                    loc = view
+                    loc = _row_padded(loc)
             else:
                 loc = torch.zeros((0,) + tuple(full.shape[1:]), dtype=full.dtype)
             return DTensor.from_local(loc, mesh, place, run_check=False, shape=full.shape, stride=full.stride())
